@@ -39,6 +39,10 @@ def check(rep, tier, seed):
                 ops.append("ps:%d" % total)
                 ops.append("rf:10")
                 ops += ["ps:-1", "ps:%d" % (total + 1), "pp:%d" % (total + 1), "rs:-1", "rs:%d" % (len(fi["data"]) + 1), "rf:2"]
+                # the lapped variants must reject the same arguments, equally without disturbing the position: the reads that
+                # follow are compared with the audio at the reported position
+                ops += ["ps:%d" % (total // 3), "rf:37", "pl:-1", "rf:10", "ql:%d" % (1 << 40), "rf:10", "rl:-1", "rf:10",
+                        "rl:%d" % (len(fi["data"]) + 1), "rf:10", "pl:%d" % (1 << 40), "rf:300", "rf:10"]
                 # time seeks: inside links (exact duration arithmetic is the harness's oracle)
                 for _ in range(6):
                     ops.append("ts:%.9g" % (r.below(1000000) / 1000000.0 * total / 48000.0))
